@@ -29,5 +29,8 @@ int main() {
   { alignas(8) static char b[sizeof(std::tuple<int,int>)]; auto* t = reinterpret_cast<std::tuple<int,int>*>(b); printf("#define OFF_Tuple2_0 %zu\n#define OFF_Tuple2_1 %zu\n", (size_t)((char*)&std::get<0>(*t) - b), (size_t)((char*)&std::get<1>(*t) - b)); }
   { alignas(8) static char b[sizeof(std::tuple<int,int,int>)]; auto* t = reinterpret_cast<std::tuple<int,int,int>*>(b); printf("#define OFF_Tuple3_0 %zu\n#define OFF_Tuple3_1 %zu\n#define OFF_Tuple3_2 %zu\n", (size_t)((char*)&std::get<0>(*t) - b), (size_t)((char*)&std::get<1>(*t) - b), (size_t)((char*)&std::get<2>(*t) - b)); }
   O(Any_core, Any, core_);
+  typedef Impl::WhenAllRange<int, std::vector<int>> WAR; typedef WAR::DataT<int> WarData;
+  O(WarData_total, WarData, total); O(WarData_resolved, WarData, resolved); O(WarData_rejected, WarData, rejected); O(WarData_mtx, WarData, mtx);
+  O(WarData_resolve, WarData, resolve); O(WarData_reject, WarData, reject); O(WarData_results, WarData, results); S(WarData, WarData);
   return 0;
 }
